@@ -192,6 +192,15 @@ func main() {
 	if mode == "selftest" {
 		os.Exit(cx.selftest())
 	}
+	// per-job wall-clock backstop (environment trouble when it fires, never a verdict): C01 budgets allow runs of many
+	// minutes; the other checks use small budgets, so a job that is silent for minutes is stuck outside the simulator's
+	// control (e.g. an unowned blocking operation inside the library)
+	switch cx.Prop {
+	case "C01":
+		cx.sim.Timeout, cx.simFresh.Timeout = 3600*time.Second, 3600*time.Second
+	default:
+		cx.sim.Timeout, cx.simFresh.Timeout = 400*time.Second, 400*time.Second
+	}
 	switch cx.Prop {
 	case "C07":
 		cx.runC07()
